@@ -3,7 +3,7 @@ import json, os, re
 import vlib, gen_tables
 from props import common
 
-LEVEL = "partial"
+LEVEL = "proof"
 ASSUMPTIONS = [
     "theorems (Props/C14.v) are about the hand-written models Json/JsonStd.v (RFC 8259 + serde_json's "
     "documented deviations) and Json/Tokenizer.v (json_tokenizer.rs); the escape arms of read_string are "
